@@ -3,9 +3,16 @@
    inverse to the RFC 1951 tables of the specification over all 256 match lengths and all
    32768 distances (what compress_lz_codes emits for a (length, distance) pair decodes, under
    the specification's tables, to that pair).  The token-level mode clauses are decided per
-   explored run by the extracted specification decoder. *)
-From Coq Require Import NArith.
-From MZ.proofs Require Import DeflateFlags.
+   explored run by the extracted specification decoder.
+   For level 0 (every flag word with FORCE_ALL_RAW_BLOCKS) the acceptance clause is proved for every
+   input and every call schedule: what the compressor model has emitted when it reports Done is a stream
+   the RFC 1951 / 1950 specification accepts, consumes completely and decodes to the consumed input, made
+   of stored blocks only (C10_level0_output_is_a_valid_stream_partial; the blocks are listed). *)
+From Coq Require Import NArith List.
+From MZ.lib Require Import Mach.
+From MZ.spec Require Import DeflateSpec.
+From MZ.model Require Import DeflateCore.
+From MZ.proofs Require Import DeflateFlags StoredSpec StoredStream StoredSchedules.
 Local Open Scope N_scope.
 
 Theorem C10_length_tables_inverse : forall i, i < 256 -> len_ok i = true.
@@ -16,3 +23,14 @@ Proof. exact dist_table_inverse. Qed.
 
 Example C10_len_258 : enc_len 255 = (285, 0, 0). Proof. reflexivity. Qed.
 Example C10_dist_32768 : enc_dist 32767 = (29, 8191, 13). Proof. reflexivity. Qed.
+
+Theorem C10_level0_output_is_a_valid_stream_partial :
+  forall (data : list N) (flags wb : N) (sched : list (N * N * N)) (out : list N) (n : N),
+  hasf flags FLAG_RAW = true -> wb <= 15 -> bytes_ok data ->
+  Forall (fun it => legal_flush (snd it)) sched ->
+  drive (comp_new flags wb) data sched nil 0 = Ret (Some (out, n)) ->
+  n <= N.of_nat (length data) /\
+  exists blocks,
+    (if hasf flags FLAG_ZLIB then zlib_spec true out else inflate_spec out)
+    = SDone (firstn (N.to_nat n) data) (N.of_nat (length out)) blocks.
+Proof. exact level0_every_schedule. Qed.
